@@ -105,6 +105,15 @@ func (e *Engine) Eval(fn *ssa.Function, st *State, check bool, call ssa.CallInst
 	if e.Trace != nil {
 		e.trace("ENTER %s: %s", shortFn(fn), st.String())
 	}
+	if e.ErrDiscipline {
+		// ghost reading of error-typed call results: "the error of the last execution, nil if
+		// the call has not been executed yet"
+		for _, v := range errorResultsOf(fn) {
+			k := e.vid(v)
+			st.isnil[k] = true
+			delete(st.nonnil, k)
+		}
+	}
 	fr.in = map[int]*State{0: st}
 	e.fixpoint(fr)
 	if e.Exceeded {
@@ -470,9 +479,15 @@ func (e *Engine) runBlock(fr *frame, b *ssa.BasicBlock, final bool) {
 						delete(wn.nonnil, k)
 						we.nonnil[k] = true
 						delete(we.isnil, k)
+						if fr.check && e.ErrDiscipline {
+							e.checkErrDiscipline(fr, wn, in)
+						}
 						fr.rets = append(fr.rets, retInfo{wn, in}, retInfo{we, in})
 						return
 					}
+				}
+				if fr.check && e.ErrDiscipline {
+					e.checkErrDiscipline(fr, st, in)
 				}
 				fr.rets = append(fr.rets, retInfo{st, in})
 			}
@@ -1148,4 +1163,41 @@ func (e *Engine) tripBounded(fr *frame, l *loopInfo, _ *State) bool {
 		}
 	}
 	return false
+}
+
+// errorResultsOf lists the error-typed results of the calls of fn (the call
+// value itself, or the Extract of an error-typed tuple component).
+func errorResultsOf(fn *ssa.Function) []ssa.Value {
+	var out []ssa.Value
+	for _, b := range fn.Blocks {
+		for _, in := range b.Instrs {
+			switch x := in.(type) {
+			case *ssa.Call:
+				if isErrorType(x.Type()) {
+					out = append(out, x)
+				}
+			case *ssa.Extract:
+				if _, ok := x.Tuple.(*ssa.Call); ok && isErrorType(x.Type()) {
+					out = append(out, x)
+				}
+			}
+		}
+	}
+	return out
+}
+
+// checkErrDiscipline: at a return of fr.fn whose own error result is nil, every
+// error produced by a call of fr.fn must be nil (E-ERR).
+func (e *Engine) checkErrDiscipline(fr *frame, st *State, ret *ssa.Return) {
+	n := len(ret.Results)
+	if n == 0 || !isErrorType(ret.Results[n-1].Type()) || !e.isNil(st, ret.Results[n-1]) {
+		return
+	}
+	for _, v := range errorResultsOf(fr.fn) {
+		in := v.(ssa.Instruction)
+		if ex, ok := v.(*ssa.Extract); ok {
+			in = ex.Tuple.(*ssa.Call)
+		}
+		e.oblige(fr, "E-ERR", in, "error-observed", e.isNil(st, v), "the function returns a nil error although the error of this call may be non-nil (dropped error)")
+	}
 }
